@@ -316,40 +316,72 @@ func (s *Sched) newWorker(w int) *Exec {
 // the solver, and snapshots the heap.
 func (x *Exec) initWorker() {
 	P := x.P
-	initPkgs := []*ssa.Package{P.prog.ImportedPackage("unicode/utf8"), P.lib}
-	if P.cli != nil {
-		initPkgs = append(initPkgs, P.cli)
-	}
-	for _, extra := range []string{"errors", "sort", "strings", "strconv", "unicode", "os", "flag", "io", "sync"} {
-		if p := P.prog.ImportedPackage(extra); p != nil {
-			// globals only (zero-valued); their init functions are not run
-			for _, m := range p.Members {
-				if g, ok := m.(*ssa.Global); ok {
-					func() {
-						defer func() { recover() }()
-						x.globals[g] = &Cell{V: x.zero(g.Type().Underlying().(*types.Pointer).Elem()), Name: g.Name()}
-					}()
-				}
+	alloc := func(p *ssa.Package) {
+		for _, m := range p.Members {
+			if g, ok := m.(*ssa.Global); ok {
+				func() {
+					defer func() { recover() }()
+					x.globals[g] = &Cell{V: x.zero(g.Type().Underlying().(*types.Pointer).Elem()), Name: g.Name()}
+				}()
 			}
 		}
 	}
-	for _, p := range initPkgs {
-		if p == nil {
-			continue
-		}
+	drop := func(p *ssa.Package) {
 		for _, m := range p.Members {
 			if g, ok := m.(*ssa.Global); ok {
-				x.globals[g] = &Cell{V: x.zero(g.Type().Underlying().(*types.Pointer).Elem()), Name: g.Name()}
+				delete(x.globals, g)
 			}
 		}
 	}
 	x.job = newJob("<init>", nil)
-	x.job.Unwind = 100000
+	x.job.Unwind = 1000000
 	x.resetPath()
-	for _, p := range initPkgs {
-		if p != nil {
-			x.call(p.Func("init"), nil, nil)
+	// standard-library packages whose package-level variables the interpreted
+	// code may read: their real initialisers are run; if one cannot be
+	// interpreted its globals are dropped, so that any later access is
+	// reported as unsupported instead of silently reading zero values.
+	x.initOK = map[string]bool{}
+	for _, name := range []string{"errors", "math/bits", "unicode/utf8", "math", "strconv", "unicode", "strings", "sort", "io"} {
+		pk := P.prog.ImportedPackage(name)
+		if pk == nil {
+			continue
 		}
+		alloc(pk)
+		x.initOK[name] = true
+		ok := func() (ok bool) {
+			defer func() {
+				if r := recover(); r != nil {
+					ok = false
+				}
+			}()
+			x.steps = 0
+			x.call(pk.Func("init"), nil, nil)
+			return true
+		}()
+		if !ok {
+			x.initOK[name] = false
+			drop(pk)
+		}
+		if os.Getenv("SYMGO_INITDBG") != "" {
+			fmt.Printf("init %s ok=%v steps=%d\n", name, ok, x.steps)
+		}
+	}
+	// environment packages used only through stubs (C19): zero-valued globals, never initialised
+	for _, name := range []string{"os", "flag", "sync"} {
+		if pk := P.prog.ImportedPackage(name); pk != nil {
+			alloc(pk)
+		}
+	}
+	initPkgs := []*ssa.Package{P.lib}
+	if P.cli != nil {
+		initPkgs = append(initPkgs, P.cli)
+	}
+	for _, pk := range initPkgs {
+		alloc(pk)
+	}
+	for _, pk := range initPkgs {
+		x.steps = 0
+		x.call(pk.Func("init"), nil, nil)
 	}
 	x.declTables(x.sol)
 	x.snapshotHeap()
@@ -460,7 +492,7 @@ func (x *Exec) resetPath() {
 	x.known = map[string]uint64{}
 	x.notEq = map[string]map[uint64]bool{}
 	x.roots, x.tape, x.notes, x.abstract = nil, nil, nil, nil
-	x.syncMaps, x.onceDone, x.lockDepth, x.pools = nil, nil, 0, nil
+	x.syncMaps, x.onceDone, x.lockDepth, x.pools, x.rdepth = nil, nil, 0, nil, 0
 	x.steps, x.depth, x.epoch, x.monitor, x.catching = 0, 0, 1, false, 0
 	x.curFn, x.curIn = nil, nil
 	x.funcs = map[*ssa.Function]bool{}
